@@ -1,13 +1,23 @@
 ---------------------------- MODULE CrossThread ----------------------------
 (***************************************************************************)
 (* add_callback from several threads (property C38): every thread          *)
-(* (thread 1 is the loop's own thread, scheduling from inside callbacks)   *)
-(* schedules a numbered series of callbacks while the loop runs.  The      *)
-(* contract: each callback runs exactly once, after its add_callback call  *)
-(* began, and the callbacks of one thread run in the order that thread     *)
-(* scheduled them.  Nothing is promised about the relative order of        *)
-(* different threads' callbacks, so the model keeps one FIFO per thread    *)
-(* (a global FIFO would demand more than the property states).             *)
+(* (thread 1 is the loop's own thread, scheduling from inside callbacks;   *)
+(* the others are plain threads, threads running their OWN asyncio loop,   *)
+(* threads running their own IOLoop) schedules a numbered series of        *)
+(* callbacks on one target loop that is otherwise idle.  The contract:     *)
+(* each callback runs exactly once, after its add_callback call began, the *)
+(* callbacks of one thread run in the order that thread scheduled them,    *)
+(* and a callback whose add_callback call has RETURNED is never left       *)
+(* behind by a loop that went to sleep: add_callback from another thread   *)
+(* leaves a wake-up pending (NoLostWakeup).  Nothing is promised about the *)
+(* relative order of different threads' callbacks, so the model keeps one  *)
+(* FIFO per thread (a global FIFO would demand more than the property).    *)
+(*                                                                         *)
+(* Sleeping is modelled with two bits: `asleep` (the loop is blocked       *)
+(* waiting for I/O with no timeout) and `wake` (a wake-up is pending).     *)
+(* The loop only blocks when nothing that was added is unrun, or when a    *)
+(* wake-up is pending (it then returns at once); while it sleeps nothing   *)
+(* runs.  Sleep / WakeUp / Drain are internal steps.                       *)
 (***************************************************************************)
 EXTENDS Integers, Sequences, FiniteSets, TLC
 
@@ -15,11 +25,14 @@ CONSTANTS MaxThreads, MaxItems, Shapes     \* Shapes: set of <<threads, items>> 
 
 VARIABLES cfg,     \* [nt, nk]
           begun,   \* thread -> number of add_callback calls started
+          added,   \* thread -> number of add_callback calls that have returned
           nrun,    \* thread -> number of its callbacks that ran
           ran,     \* execution log: <<thread, k>>
+          asleep,  \* 1: the loop is blocked with nothing to do
+          wake,    \* 1: a wake-up is pending
           step
 
-vars == <<cfg, begun, nrun, ran>>
+vars == <<cfg, begun, added, nrun, ran, asleep, wake>>
 Threads == 1..cfg.nt
 
 Proj == [nran |-> Len(ran)]
@@ -27,28 +40,50 @@ Obs(a, args) == [act |-> a, args |-> args, exp |-> Proj']
 
 InitWith(c) ==
     /\ cfg = c
-    /\ begun = [t \in 1..c.nt |-> 0] /\ nrun = [t \in 1..c.nt |-> 0]
-    /\ ran = <<>>
+    /\ begun = [t \in 1..c.nt |-> 0] /\ added = [t \in 1..c.nt |-> 0] /\ nrun = [t \in 1..c.nt |-> 0]
+    /\ ran = <<>> /\ asleep = 0 /\ wake = 0
     /\ step = [act |-> "init", args |-> <<>>, exp |-> [nran |-> 0]]
 InitState == \E s \in Shapes : InitWith([nt |-> s \div 100, nk |-> s % 100])
 
+(* thread t starts its next add_callback call (its calls do not overlap) *)
 Begin(t) ==
-    /\ t \in Threads /\ begun[t] < cfg.nk
-    /\ (t = 1 /\ begun[t] > 0 => nrun[t] = begun[t])   \* the loop thread schedules its next item from inside the previous one
+    /\ t \in Threads /\ begun[t] < cfg.nk /\ added[t] = begun[t]
+    /\ (t = 1 => asleep = 0 /\ (begun[t] > 0 => nrun[t] = begun[t]))   \* the loop thread schedules its next item from inside the previous one
     /\ begun' = [begun EXCEPT ![t] = @ + 1]
-    /\ UNCHANGED <<cfg, nrun, ran>>
+    /\ UNCHANGED <<cfg, added, nrun, ran, asleep, wake>>
     /\ step' = Obs("begin", <<t, begun[t] + 1>>)
+
+(* the call returns: the callback is queued and - from another thread - a wake-up is pending *)
+Added(t) ==
+    /\ t \in Threads /\ added[t] < begun[t]
+    /\ (t = 1 => asleep = 0)
+    /\ added' = [added EXCEPT ![t] = @ + 1]
+    /\ wake' = IF t = 1 THEN wake ELSE 1
+    /\ UNCHANGED <<cfg, begun, nrun, ran, asleep>>
+    /\ step' = Obs("added", <<t, begun[t]>>)
 
 (* the loop runs the oldest not yet run callback of some thread *)
 Run(t) ==
-    /\ t \in Threads /\ nrun[t] < begun[t]
+    /\ t \in Threads /\ nrun[t] < begun[t] /\ asleep = 0
     /\ ran' = Append(ran, <<t, nrun[t] + 1>>)
     /\ nrun' = [nrun EXCEPT ![t] = @ + 1]
-    /\ UNCHANGED <<cfg, begun>>
+    /\ UNCHANGED <<cfg, begun, added, asleep, wake>>
     /\ step' = Obs("run", <<t, nrun[t] + 1>>)
 
+AllAddedRun == \A t \in Threads : nrun[t] >= added[t]
+(* the loop's own thread is inside a callback while one of its add_callback calls is in progress
+   and between running its item k and scheduling item k + 1 from inside it *)
+LoopThreadBusy == added[1] # begun[1] \/ (begun[1] < cfg.nk /\ nrun[1] = begun[1])
+Sleep  == /\ asleep = 0 /\ (AllAddedRun \/ wake = 1) /\ ~LoopThreadBusy
+          /\ asleep' = 1 /\ UNCHANGED <<cfg, begun, added, nrun, ran, wake, step>>
+WakeUp == /\ asleep = 1 /\ wake = 1
+          /\ asleep' = 0 /\ wake' = 0 /\ UNCHANGED <<cfg, begun, added, nrun, ran, step>>
+Drain  == /\ asleep = 0 /\ wake = 1
+          /\ wake' = 0 /\ UNCHANGED <<cfg, begun, added, nrun, ran, asleep, step>>
+Internal == Sleep \/ WakeUp \/ Drain
+
 AllDone == \A t \in Threads : nrun[t] = cfg.nk
-Next == \E t \in 1..MaxThreads : Begin(t) \/ Run(t)
+Next == (\E t \in 1..MaxThreads : Begin(t) \/ Added(t) \/ Run(t)) \/ Internal
 Spec == InitState /\ [][Next]_<<vars, step>>
 FairSpec == Spec /\ WF_vars(Next)
 
@@ -57,7 +92,11 @@ FairSpec == Spec /\ WF_vars(Next)
 RunsOnce == \A p, q \in 1..Len(ran) : p # q => ran[p] # ran[q]
 PerThreadOrder == \A p, q \in 1..Len(ran) : (p < q /\ ran[p][1] = ran[q][1]) => ran[p][2] < ran[q][2]
 NoGaps == \A t \in Threads : \A k \in 1..nrun[t] : \E p \in 1..Len(ran) : ran[p] = <<t, k>>
-Causal == \A t \in Threads : nrun[t] <= begun[t]
+Causal == \A t \in Threads : nrun[t] <= begun[t] /\ added[t] <= begun[t] /\ begun[t] <= added[t] + 1
+(* bounded progress: the loop is never asleep, with no wake-up pending, while a callback that was
+   added has not run - such a state would last for ever on an otherwise idle loop *)
+Stuck == asleep = 1 /\ wake = 0 /\ ~AllAddedRun
+NoLostWakeup == ~Stuck
 EventuallyAllRun == <>[]AllDone
 View == vars
 =============================================================================
